@@ -727,6 +727,30 @@ class C18(OutcomeCheck):
     # combinations of "failed before" bits that loom's yield rule (not before another thread has run) excludes
     rnd_family = lambda self, ctx: gen.fam_chain_spin()
 
+    def extra(self, ctx, fam, lines):
+        """read / yield / read again under two unordered stores: every outcome RC11 allows must be explored
+        (the pruning of values seen before a yield must follow the modification order, not the order of
+        execution)"""
+        if getattr(self, "_lit_done", None) == ctx.dir:
+            return []
+        self._lit_done = ctx.dir
+        lit = gen.fam_spin_litmus()
+        fl = FamilyRun(ctx, lit, "spinlit", cap=30000)
+        rk = driver_keys("rc11s", fl.file, cap=30000)
+        viol = []
+        for i, p in fl.parsed.items():
+            k, fin = impl_keys(p)
+            miss = sorted(x for x in rk.get(i, {"keys": set()})["keys"] if x not in k)
+            if fin != "ok":
+                viol.append({"prog": lit[i], "deviation": "spurious-failure:" + fin})
+            elif miss:
+                viol.append({"prog": lit[i], "deviation": "missing:" + miss[0], "impl_outcomes": sorted(k)[:12], "rc11_outcomes": sorted(rk[i]["keys"])[:12]})
+        wm = fl.whole_run_mismatches()
+        if wm and not viol:
+            m = wm[0]
+            viol.append({"prog": m.get("prog"), "deviation": f"correspondence:L and the implementation differ at iteration {m.get('iteration')} (no outcome of RC11 is missing)"})
+        return viol
+
 
 def lock_trace_check(fam, lines):
     """Mutual exclusion on every explored execution, from the order in which the
@@ -920,6 +944,22 @@ class C15:
                         res["violations"].append({"prog": all_lines[i], "iteration": n + 1, "deviation": "preemptions:" + why})
                         break
             keys[i] = impl_keys(p)
+        # programs of atomics only: the smallest bound with which the interleaving semantics (R with a
+        # preemption budget) already produces every outcome
+        atom = [b for b in base if b.startswith(("pbA", "pbR"))]
+        need = {}
+        if atom:
+            f = os.path.join(ctx.dir, "refb.txt")
+            rl = [gen.with_cfg(b, pb=n) for b in atom for n in bounds + [None]]
+            open(f, "w").write("\n".join(rl) + "\n")
+            rb = driver_keys("refb", f)
+            per = len(bounds) + 1
+            for a_i, b in enumerate(atom):
+                full = rb[a_i * per + per - 1]["keys"]
+                for n_i, n in enumerate(bounds):
+                    if rb[a_i * per + n_i]["keys"] == full:
+                        need[norm_prog(b)] = n
+                        break
         nmono = 0
         for b in base:
             nb = norm_prog(b)
@@ -945,6 +985,9 @@ class C15:
                         res["violations"].append({"prog": lines[j], "deviation": f"not-monotone: a result found with bound {n - 1} is missing with bound {n}: " + sorted(prevk - k)[0]})
                     if n >= size and k != ukeys:
                         res["violations"].append({"prog": lines[j], "deviation": f"bound {n} >= program size {size} but the result set differs from the unbounded one"})
+                    elif nb in need and n >= need[nb] + 1 and k != ukeys:
+                        # (+1: loom also counts the choice of a thread other than 0 at the very first entry)
+                        res["violations"].append({"prog": lines[j], "deviation": f"every outcome needs at most {need[nb]} preemptions, but with bound {n} the result set differs from the unbounded one: missing " + sorted(ukeys - k)[0]})
                     prevk = k
                 else:
                     prevk = None
@@ -1114,6 +1157,9 @@ class C19:
             lim_lines.append(gen.with_cfg(b, mt=nth)); lim_expect.append(("ok", iters))
             if nth > 1:
                 lim_lines.append(gen.with_cfg(b, mt=nth - 1)); lim_expect.append(("maxthreads", None))
+            # no max_permutations: the checkpoint interval must not change what is explored
+            for ci in (1, 2, 7):
+                lim_lines.append(gen.with_cfg(b, ci=ci)); lim_expect.append(("ok", iters))
             for mp, ci in ((1, 1), (2, 1), (3, 2), (2, 5), (iters + 5, 1)):
                 # iterations run = (first boundary b >= mp with b % ci == 0) - 1, capped by the total
                 bnd = ((max(mp, 1) + ci - 1) // ci) * ci
@@ -1674,7 +1720,7 @@ class C20(OutcomeCheck):
 
 
 HOOK_COMMITS = ["8f72140"]
-FIX_COMMITS = ["4a97b3f", "e9415b5", "1d4f62f", "36c0d26", "7942235", "13413be", "756d098", "cac202b", "91a3e2b", "189e88b", "c0421c4", "4a05908", "01ecff8"]
+FIX_COMMITS = ["4a97b3f", "e9415b5", "1d4f62f", "36c0d26", "7942235", "13413be", "756d098", "cac202b", "91a3e2b", "189e88b", "c0421c4", "4a05908", "01ecff8", "02b5837"]
 NOT_CLAIMED = {}
 REGISTRY = {"C14": C14(), "C01": C01(), "C05": C05(), "C07": C07(), "C08": C08(), "C09": C09(),
             "C10": C10(), "C11": C11(), "C18": C18(), "C12": C12(), "C15": C15(), "C19": C19(), "C13": C13(), "C06": C06(), "C16": C16(), "C02": C02(), "C03": C03(), "C04": C04(), "C17": C17(), "C20": C20()}
